@@ -43,6 +43,8 @@ def panic_class(msg):
         return "unwrap-none"
     if "multiple unknown size fields" in m:
         return "multiple-unknown-size-fields"
+    if "is not a dyn field of" in m:
+        return "payload-not-a-dyn-field"
     return re.sub(r"[^a-z]+", "-", m)[:40]
 
 
@@ -100,7 +102,7 @@ def run(rep, tier, seed):
         st = g.status.get(name, {})
         n["descriptions"] += 1
         grp = g.entry(name)["group"]
-        for stage in ("parse", "analyze", "json", "rust", "python", "cxx"):
+        for stage in ("parse", "analyze", "json", "rust", "python", "cxx", "java"):
             v = st.get(stage)
             if isinstance(v, dict) and "panic" in v:
                 rep.add(bkey(g, name, stage, "panic", f"C10|{stage}|panic|{panic_class(v['panic'])}"),
@@ -171,6 +173,25 @@ def run(rep, tier, seed):
         if rc_ != 0 and not errs:
             rep.add("C10|cxx|clang-failed", "clang failed without an error line", f"{nm}.h")
     samples.append({"witness": "clang++ -fsyntax-only", "modules": len(cxx)})
+    # 4b. Java: javac (parse + attribute, no class files) over every emitted package
+    jd, jidx = stages.stage_java(tier, seed)
+    n["java_modules"] = len(jidx)
+    for nm, info in sorted(jidx.items()):
+        seen = set()
+        for e in info["errors"]:
+            msg = e["msg"].splitlines()[0]
+            names = {re.sub(r"[^a-z0-9]", "", x.lower()) for x in model_names(g, nm)}
+            norm = " ".join("_" if re.sub(r"[^a-z0-9]", "", w.lower().split(".")[-1]) in names else w
+                            for w in re.split(r"[\s(),:]+", msg))
+            key = re.sub(r"[^a-z_]+", "-", norm.lower())[:50]
+            if key in seen:
+                continue
+            seen.add(key)
+            rep.add(bkey(g, nm, "java", "compile", f"C10|java|compile|{key}"), f"emitted Java does not compile: {msg[:140]}",
+                    f"{nm} {e['file']}")
+        if info["rc"] != 0:
+            rep.add("C10|java|javac-failed", "the javac tree dumper failed: " + info["stderr"][-200:], nm)
+    samples.append({"witness": "javac (attribution only)", "modules": len(jidx)})
     # 5. source rules
     source_rules(rep, n, samples)
     rep.coverage.update({
